@@ -21,10 +21,24 @@
   hook log, whose agreement with the implementation's log is part of the correspondence) is at
   most 3 x (events + 1) x (machines + 1), for every machine set (validated or not), every oracle
   and every batch; the monitor's bound `C01.workBound` (factor 6) follows (`C01_work_monitor`).
+  THE MONITOR ON THE MODEL'S OWN TRACE (`Proofs/MonitorAcceptA.lean`; `LL.modelTrace` is the trace the
+  driver would record from the model: per call the events, outcome, actions, snapshot and the call's
+  log). `C01_monitor_model_iff`: for EVERY machine set, configuration, oracle and history,
+  `C01.monitor` returns `none` exactly when neither the construction nor any call of the trace
+  reports a fault — so the work-bound rule never fires on the model (every call record meets
+  `workBound`, `C01_monitor_work`), and at the first faulting call the monitor reports (which is what
+  it is for: the model's fault is the implementation's panic). `C01_monitor_accepts_model`: under the
+  hypotheses of `C01_total` (validated machines, clock values in a window with room for the number
+  of calls) the monitor returns `none`. Both hypotheses are needed, with kernel-checked witnesses:
+  `C01_monitor_rejects_overflow` (no machines, the history of `C01_dur_overflow_reachable`: the
+  monitor reports the model's duration overflow — the known finding F6) and
+  `C01_monitor_rejects_unvalidated` (a machine without states, which `Framework::new` refuses: the
+  model run "after validation succeeded" indexes out of range and the monitor reports it).
 -/
 import MbVerif.Proofs.ValidateOK
 import MbVerif.Proofs.WorkBound
 import MbVerif.Proofs.DurBound
+import MbVerif.Proofs.MonitorAcceptA
 
 namespace Mb.C01
 open Mb
@@ -141,5 +155,94 @@ example : MachinesValid
     simp only [List.mem_singleton] at hst
     subst hst
     rfl
+
+/-! ### the monitor on the model's own trace -/
+
+/-- every call record of the model's trace meets the monitor's work bound (any machines, any
+    oracle, any history, faulting or not) -/
+theorem C01_monitor_work (ms : List Machine) (fp fb : F64) (t0 : Int) (rng : σ) (h : List Call) :
+    ∀ r ∈ (LL.modelTrace ρ ms fp fb t0 rng h).calls, steps r.log ≤ workBound r.events.length ms.length := by
+  have key : ∀ (h : List Call) (s : Fw σ), s.machines = ms → Inv04 s →
+      ∀ r ∈ LL.callRecs ρ s h, steps r.log ≤ workBound r.events.length ms.length := by
+    intro h
+    induction h with
+    | nil => intro s _ _ r hr; simp [LL.callRecs] at hr
+    | cons c h ih =>
+      intro s hm hI r hr
+      have hrun := triggerEvents_run ρ c.1 c.2 (LL.resetLog s)
+      rw [LL.callRecs, List.mem_cons] at hr
+      rcases hr with rfl | hr
+      · rw [← hm]; exact MA.work_call ρ s hI c
+      · exact ih _ ((LL.machines_run hrun).trans hm) ((LL.inv04_resetLog hI).run hrun) r hr
+  exact key h _ (LL.machines_run (init_run ρ ms fp fb t0 rng)) (Inv04.init ρ ms fp fb t0 rng)
+
+/-- **What the monitor does on the model's trace**, for every machine set, configuration, oracle and
+    history: it returns `none` exactly when neither `Framework::new` nor any call reports a fault. -/
+theorem C01_monitor_model_iff (ms : List Machine) (fp fb : F64) (t0 : Int) (rng : σ) (h : List Call) :
+    monitor (LL.modelTrace ρ ms fp fb t0 rng h) = none ↔
+      (LL.modelTrace ρ ms fp fb t0 rng h).newRes = .ok ∧
+      ∀ r ∈ (LL.modelTrace ρ ms fp fb t0 rng h).calls, r.res = .ok :=
+  MA.c01_monitor_iff ρ ms fp fb t0 rng h
+
+/-- **The monitor accepts the model** under the hypotheses of `C01_total`:
+    * `hms` — the machines pass validation and have the Rust shape. Needed: `Fw.init` models
+      `Framework::new` after validation succeeded, and for a machine without states it indexes out of
+      range (`C01_monitor_rejects_unvalidated`); the implementation returns `Err` there instead.
+    * `ht0`, `ht`, `hg` — the clock values lie in a window `[lo, lo + B]` with
+      `(calls + 1) * B ≤ Duration::MAX`. Needed: outside it the model (and the code, known finding F6)
+      overflows a `Duration`, and the monitor reports that (`C01_monitor_rejects_overflow`). -/
+theorem C01_monitor_accepts_model (ms : List Machine) (hms : MachinesValid ms) (fp fb : F64) (t0 : Int) (rng : σ)
+    (h : List Call) (lo : Int) (B : Nat) (ht0 : lo ≤ t0 ∧ t0 ≤ lo + B)
+    (ht : ∀ cl ∈ h, lo ≤ cl.2 ∧ cl.2 ≤ lo + B) (hg : (h.length + 1) * B ≤ durMax) :
+    monitor (LL.modelTrace ρ ms fp fb t0 rng h) = none :=
+  MA.c01_monitor_model ρ ms (fun m hm => machineOK_of_validate m (hms m hm).1 (hms m hm).2) fp fb t0 rng h lo B ht0 ht hg
+
+/-- the clock guard cannot be dropped: on the history of `C01_dur_overflow_reachable` (no machine
+    needed) the eighth call of the model faults and the monitor reports it -/
+theorem C01_monitor_rejects_overflow :
+    (monitor (LL.modelTrace unitOracle [] 0 0 0 ()
+      [([.blockingBegin 0], 0), ([.blockingEnd], bigT), ([.blockingBegin 0], 0), ([.blockingEnd], bigT),
+       ([.blockingBegin 0], 0), ([.blockingEnd], bigT), ([.blockingBegin 0], 0), ([.blockingEnd], bigT)])).isSome
+      = true := by decide +kernel
+
+/-- validation cannot be dropped: for a machine without states (refused by `Framework::new`) the
+    model's construction indexes out of range and the monitor reports a panic of `Framework::new` -/
+theorem C01_monitor_rejects_unvalidated :
+    (monitor (LL.modelTrace unitOracle
+      [{ allowedPaddingPackets := 0, maxPaddingFrac := 0, allowedBlockedMicrosec := 0, maxBlockingFrac := 0,
+         states := [] }] 0 0 0 () [])).isSome = true ∧
+    Validate.machine { allowedPaddingPackets := 0, maxPaddingFrac := 0, allowedBlockedMicrosec := 0,
+                       maxBlockingFrac := 0, states := [] } = false := by decide +kernel
+
+section MonitorDemo
+
+/-- the validated one-state machine of the example above (probability-1 self loop on NormalSent) -/
+private def dM : Machine :=
+  { allowedPaddingPackets := 0, maxPaddingFrac := 0, allowedBlockedMicrosec := 0, maxBlockingFrac := 0,
+    states := [{ action := none, counterA := none, counterB := none,
+                 transitions := [none, none, none, some [{ target := 0, prob := 0x3f800000 }], none, none, none,
+                                 none, none, none, none, none, none] }] }
+private def dTrace : FwTrace :=
+  LL.modelTrace unitOracle [dM, dM] 0 0 5 ()
+    [([.normalSent, .blockingBegin 1], 10), ([], 7), ([.blockingEnd, .normalSent, .timerEnd 9], 20)]
+
+/-- the same trace with the log of call `k` replaced -/
+private def tamper (t : FwTrace) (k : Nat) (log : List LogEntry) : FwTrace :=
+  { t with calls := t.calls.modify k (fun c => { c with log := log }) }
+
+/-- Non-vacuity of `C01_monitor_accepts_model`: the hypotheses hold for this trace (window
+    `[5, 5 + 15]`, clock running backwards in between), no call faults, the calls log 4, 0 and 4
+    transition invocations against bounds of 54, 18 and 72, the monitor accepts — and its work-bound
+    rule is live: the same trace with 55 transition entries in the first call's log is rejected. -/
+example : (∀ cl ∈ [(([.normalSent, .blockingBegin 1] : List TEvent), (10 : Int)), ([], 7),
+        ([.blockingEnd, .normalSent, .timerEnd 9], 20)], (5 : Int) ≤ cl.2 ∧ cl.2 ≤ 5 + (15 : Nat)) ∧
+    (3 + 1) * 15 ≤ durMax ∧
+    dTrace.newRes = .ok ∧ dTrace.calls.map (·.res) = [.ok, .ok, .ok] ∧
+    dTrace.calls.map (fun c => (steps c.log, workBound c.events.length dTrace.machines.length)) =
+      [(4, 54), (0, 18), (4, 72)] ∧
+    monitor dTrace = none ∧
+    (monitor (tamper dTrace 0 (List.replicate 55 (.trans 0 3 0)))).isSome = true := by decide +kernel
+
+end MonitorDemo
 
 end Mb.C01
